@@ -298,3 +298,13 @@ SUBCHECKS = [
     Sub('objects', strategy=objects_strategy, oracle=objects_oracle,
         quick=(8, 800), thorough=(16, 20000)),
 ]
+
+# "...and for every response the listener emits": the listener_responses
+# sub-check of C17 (real WBEMListener over loopback, every 200 body through
+# validate_cimxml plus HTTP framing) is run under C03 as well.
+try:
+    from . import c17 as _c17
+    SUBCHECKS.append(next(s for s in _c17.SUBCHECKS
+                          if s.name == 'listener_responses'))
+except ImportError:     # pragma: no cover
+    pass
